@@ -11,7 +11,7 @@
    The tie of the model to the assembly is the correspondence run by checks/c02.py. *)
 From Coq Require Import NArith List Arith.
 From ISAL Require Import Base.Words Base.ListUtil Spec.AES Spec.GF128 Spec.GCM Model.GcmStream
-  Proofs.GcmFacts Proofs.GcmStreamFacts Proofs.GcmInst.
+  Proofs.GcmFacts Proofs.GcmStreamFacts Proofs.GcmInst Proofs.GcmAlgebra.
 Import ListNotations.
 
 (* encryption: (ciphertext, tag truncated to tag_len) of SP 800-38D *)
@@ -53,6 +53,40 @@ Print Assumptions C02_spec_ad_of_ae.
 Theorem C02_ghash_of_zeros : forall h n, ghash_blocks h (zeros 16) (zeros n) = zeros 16.
 Proof. exact c_ghash_blocks_zeros. Qed.
 Print Assumptions C02_ghash_of_zeros.
+
+(* the algebra every family's GHASH evaluation relies on (deferred and aggregated reduction
+   re-associate the same xor-sum): the field product of SP 800-38D Algorithm 1 is additive in
+   each argument, for ALL numbers (no bound on x, y, h) *)
+Theorem C02_gf128_mul_additive_l : forall x y h : N,
+  gf128_mul (N.lxor x y) h = N.lxor (gf128_mul x h) (gf128_mul y h).
+Proof. exact gf128_mul_add_l. Qed.
+Print Assumptions C02_gf128_mul_additive_l.
+
+Theorem C02_gf128_mul_additive_r : forall x h1 h2 : N,
+  gf128_mul x (N.lxor h1 h2) = N.lxor (gf128_mul x h1) (gf128_mul x h2).
+Proof. exact gf128_mul_add_r. Qed.
+Print Assumptions C02_gf128_mul_additive_r.
+
+(* hence the GHASH recurrence Y_i = (Y_(i-1) xor X_i) . H is additive in (state, data) and
+   affine in the state, for every number of blocks *)
+Theorem C02_ghash_additive : forall (h : N) (xs ys : list N) (y1 y2 : N), length xs = length ys ->
+  ghashN h (N.lxor y1 y2) (map (fun p => N.lxor (fst p) (snd p)) (combine xs ys)) =
+  N.lxor (ghashN h y1 xs) (ghashN h y2 ys).
+Proof. exact ghashN_add_data. Qed.
+Print Assumptions C02_ghash_additive.
+
+Theorem C02_ghash_affine_in_state : forall (h : N) (xs : list N) (y d : N),
+  ghashN h (N.lxor y d) xs = N.lxor (ghashN h y xs) (ghashN h d (map (fun _ => 0%N) xs)).
+Proof. exact ghashN_affine. Qed.
+Print Assumptions C02_ghash_affine_in_state.
+
+(* non-vacuity: ghashN is the byte-level GHASH of the spec on test case 2 of the GCM
+   specification, and the affine split is not trivial there (both summands non-zero) *)
+Example C02_ghashN_is_ghash_tc2 :
+  N_to_block (ghashN (block_to_N kat_H2) 0 [block_to_N kat_C2; be_to_N (N_to_be 8 0 ++ N_to_be 8 128)]) =
+  ghash kat_H2 (kat_C2 ++ N_to_be 8 0 ++ N_to_be 8 128)
+  /\ ghashN (block_to_N kat_H2) (block_to_N kat_C2) [0%N; 0%N] <> 0%N.
+Proof. split; [vm_compute; reflexivity | vm_compute; discriminate]. Qed.
 
 (* non-vacuity / known answers: the model on the vectors of the GCM specification and of
    gcm_vectors.h (128- and 256-bit keys, AAD, lengths 0, 16, 60, 64; tags 16, 12, 8; both
